@@ -738,11 +738,6 @@ def is_stale_function_cell(name, case):
     return expected_identity(od, nd).get(o[2][1]) != "kept"
 
 
-def is_f29_bases_changed(err):
-    """F29 (unrepaired tree): a class gained or lost a module-level base."""
-    return bool(err) and "__dict__" in err and "not writable" in err or bool(err) and "__weakref__" in err
-
-
 # ---------------------------------------------------------------------------------------------
 # oracle
 
@@ -765,10 +760,7 @@ def oracle_case(ctx, c, im):
             ctx.violation("rollback", c, f)
     ctx.bump("oracle:failure_points", len(im["fails"]))
     if im["err"] is not None:
-        if is_f29_bases_changed(im["err"]):
-            ctx.known_hit("F29", "xreload raises on a successfully executing new version: %s" % im["err"])
-        else:
-            ctx.violation("patch_total", c, im["err"])
+        ctx.violation("patch_total", c, "xreload raises on a successfully executing new version: %s" % im["err"])
         return
     fresh = im["fresh"]
     if "names" not in fresh:
@@ -862,6 +854,11 @@ def compare(ctx, cases, impl, index, model):
                         bad.append([a, want, mh[a]])
                 if bad:
                     ctx.disagreement("heap after livepatch", c, bad[:6], "see pairs [addr, impl, model]")
+                # hypothesis of C16_module_dunders_partial: the scratch module's dict is not written by the patch
+                sd = str(im["pre"][str(im["roots"][1])][1])
+                if im["post"].get(sd) != im["pre"].get(sd):
+                    ctx.disagreement("hypothesis: the scratch module's dict is not written during the patch", c,
+                                     im["post"].get(sd), im["pre"].get(sd))
                 reg = dict((k, a) for k, a in mv["registry"])
                 if reg.get(K[im["name"]]) != im["reg_after"]:
                     ctx.disagreement("sys.modules entry", c, im["reg_after"], reg)
